@@ -76,10 +76,9 @@ Definition alias_unmangle (sfo : option sfield) (fvs : list fvt) : outcome tval 
   match fvs with
   | [(_, v)] => Ok v
   | [(_, v0); (_, v1)] =>
-      n0 <- go_is_nil v0 ;;
-      both <- (if n0 then Ok false else (n1 <- go_is_nil v1 ;; Ok (negb n1))) ;;
-      if both then Err (alias_both_code (sfo_name sfo))
-      else if negb n0 then Ok v0
-      else (n1 <- go_is_nil v1 ;; if negb n1 then Ok v1 else Ok v0)
+      if negb (go_is_zero v0) && negb (go_is_zero v1) then Err (alias_both_code (sfo_name sfo))
+      else if negb (go_is_zero v0) then Ok v0
+      else if negb (go_is_zero v1) then Ok v1
+      else Ok v0
   | _ => Err 10
   end.
